@@ -722,20 +722,35 @@ Definition pending_after (m : mgr) (sid ns : str) : list (str * list str) :=
     match l with [] => adel str_eqb (pending m) ns | _ => aset str_eqb (pending m) ns l end
   else pending m.
 
+Lemma disc_release_pending m sid ns : pending (disc_release m sid ns) = pending_after m sid ns.
+Proof.
+  unfold disc_release, pending_after.
+  assert (E : is_pending (mkMgr (rooms m) (pending m) (adel str_eqb (callbacks m) sid)) sid ns = is_pending m sid ns)
+    by reflexivity.
+  rewrite E. destruct (is_pending m sid ns); reflexivity.
+Qed.
+Lemma disc_release_rooms' m sid ns : rooms (disc_release m sid ns) = rooms m.
+Proof. unfold disc_release. destruct (is_pending _ sid ns); reflexivity. Qed.
+Lemma disc_release_callbacks' m sid ns : callbacks (disc_release m sid ns) = adel str_eqb (callbacks m) sid.
+Proof. unfold disc_release. destruct (is_pending _ sid ns); reflexivity. Qed.
+
 Lemma mgr_disconnect_spec m sid ns :
   MOK m ->
   let m' := mgr_disconnect m sid ns in
   MOK m' /\ eio_from_sid m' sid ns = None /\
   (forall ns', ns <> ns' -> ns_rooms m' ns' = ns_rooms m ns') /\
-  (ns_rooms m ns = None -> m' = m) /\
+  (ns_rooms m ns = None -> m' = disc_release m sid ns) /\
   (ns_rooms m ns <> None -> callbacks m' = adel str_eqb (callbacks m) sid /\
                             pending m' = pending_after m sid ns).
 Proof.
   intros Hm m'. subst m'. unfold mgr_disconnect.
   destruct (ns_rooms m ns) as [rm|] eqn:Hns.
-  2:{ split; [exact Hm|]. split; [unfold eio_from_sid; rewrite room_of_none, Hns; reflexivity|].
-      split; [reflexivity|]. split; [reflexivity|]. intro H. contradiction. }
-  fold (disc_names rm sid).
+  2:{ split; [apply (MOK_rooms m); [apply disc_release_rooms'|exact Hm]|].
+      split; [unfold eio_from_sid; rewrite room_of_none; unfold ns_rooms; rewrite disc_release_rooms';
+              fold (ns_rooms m ns); rewrite Hns; reflexivity|].
+      split; [intros ns' _; unfold ns_rooms; rewrite disc_release_rooms'; reflexivity|].
+      split; [reflexivity|]. intro H. contradiction. }
+  fold (disc_names rm sid). unfold disc_release.
   destruct (fold_leave_spec sid ns (disc_names rm sid) m Hm) as (Hm1 & Hp1 & Hc1 & Hf1 & He1 & _).
   set (m1 := fold_left (fun m r => leave_room m sid ns r) (disc_names rm sid) m) in *.
   assert (He : eio_from_sid m1 sid ns = None).
